@@ -453,14 +453,17 @@ def run_shard(spec):
         route = rng.choice(["cli", "cli", "api"])
         # command-line route: sometimes a function head / assert between the scopes and the set
         # (the let around a function head still encloses the body: `let a = 1; in { pkgs }: { x = a; }`)
-        prog = S.generate(rng, opaque=(route == "cli" and rng.random() < 0.3))
+        # ... and sometimes the set is reached through a name: the document body is a name bound
+        # to the set in one of its let layers (later layers may rebind what the set refers to)
+        via_alias = route == "cli" and rng.random() < 0.15
+        prog = S.generate(rng, opaque=(route == "cli" and not via_alias and rng.random() < 0.3), alias=via_alias)
         if cst.has_error(prog.text):
             res["inconclusive"] += 1
             continue
         qs = ref_queries(prog)
         if not qs:
             continue
-        history = rng.random() < 0.5
+        history = rng.random() < 0.5 and prog.alias is None
         steps = rng.choice([2, 3, 5]) if history else 1
         try:
             live = E.LiveDoc(prog.text)
@@ -573,6 +576,8 @@ def run_shard(spec):
             base = {"route": route, "expected_site": desc, "kind": kind, "history": "yes" if step else "no",
                     "lexical": feats.get("lexical", "?"), "with_inside_lexical": feats.get("with_inside_lexical", "?"),
                     "depth": feats.get("depth", "?")}
+            if prog.alias is not None:
+                base["alias_under_with"] = "yes" if any(f.kind == "with" for f in prog.root.wrappers) else "no"
             hc = head_crossing(frames, v, path)
             if hc != "none":
                 base["head_crossing"] = hc
